@@ -177,6 +177,8 @@ Proof.
   - destruct (sup_status s <? n); auto. destruct I; split; t.
   - destruct I; split; t.
   - destruct (named s && negb (name_mine s)); auto. destruct (name_other s); auto. destruct I; split; t.
+  - destruct (my_sup s) eqn:Em; auto. destruct (sup s); auto. destruct (_ =? _); auto.
+    destruct (sgn s); destruct I; split; t.
 Qed.
 
 Lemma inv_exec : forall ls s, Inv s -> Inv (exec ls s).
@@ -260,6 +262,7 @@ Proof.
   - destruct (exists_cell s); auto. destruct (eff_fields (EAdopt o) s) as (-> & _); auto.
   - destruct (_ <? _); auto.
   - destruct (_ && _); auto. destruct (name_other s); auto.
+  - destruct (my_sup s); auto. destruct (sup s); auto. destruct (_ =? _); auto. destruct (sgn s); auto.
 Qed.
 
 (* every stage of the cleanup is followed by the next: six more steps of the guard reach PDone *)
@@ -338,6 +341,7 @@ Proof.
   - destruct (exists_cell s); auto. destruct (eff_fields (EAdopt o) s) as (_ & _ & ->); auto.
   - destruct (_ <? _); auto.
   - reflexivity.
+  - destruct (my_sup s); auto. destruct (sup s); auto. destruct (_ =? _); auto. destruct (sgn s); auto.
 Qed.
 
 Lemma nocell_step : forall l s, exists_cell s = false -> named s = true -> name_other s <> None ->
@@ -352,6 +356,8 @@ Proof.
   all: try (destruct (_ <? _); simpl; rewrite ?Ep; auto; fail).
   all: try (destruct (negb (name_mine s)); simpl; rewrite ?Ep; auto;
             destruct (name_other s); simpl; rewrite ?Ep; auto; fail).
+  all: try (destruct (my_sup s); simpl; rewrite ?Ep; auto; destruct (sup s); simpl; rewrite ?Ep; auto;
+            destruct (_ =? _); simpl; rewrite ?Ep; auto; destruct (sgn s); simpl; rewrite ?Ep; auto; fail).
 Qed.
 
 Theorem clash_creates_nothing : forall ls nm_holder sp loc scr f sst scl,
